@@ -549,10 +549,10 @@ def t_APL(b):
         fam = b.draw(st.sampled_from([1, 1, 2, 2, 3, 0xFFFF]))
         neg = b.draw(st.booleans())
         if fam == 1:
-            prefix = b.draw(st.integers(0, 32))
+            prefix = b.draw(st.one_of(st.sampled_from([0, 32]), st.integers(0, 32)))
             addr = b.draw(st.binary(min_size=0, max_size=4))
         elif fam == 2:
-            prefix = b.draw(st.integers(0, 128))
+            prefix = b.draw(st.one_of(st.sampled_from([0, 127, 128]), st.integers(0, 128)))
             addr = b.draw(st.binary(min_size=0, max_size=16))
         else:
             prefix = b.draw(st.integers(0, 255))
